@@ -497,10 +497,23 @@ def z_rotation(M, what):
     return math.atan2(R[1, 0], R[0, 0]), omega
 
 
-def reference_checks(case, kind):
-    """All comparisons with the independent Earth-rotation model.  kind: real | zero | missing."""
+def times_from_values(case, vals):
+    """UT1 and TT clock readings for explicit (ut1_utc, tai_utc): plain additions to the UTC reading."""
+    def shift(sec):
+        tot = case["sod_us"] / 1e6 + sec
+        return case["mjd"] + int(tot // 86400), tot % 86400.0
+
+    return shift(vals["ut1_utc"]), shift(vals["tai_utc"] + 32.184), vals
+
+
+def reference_checks(case, kind, vals=None):
+    """All comparisons with the independent Earth-rotation model.  kind: real | zero | missing,
+    or any label together with explicit values vals = dict(ut1_utc, tai_utc, x, y, lod)."""
     dt = mkdate(case["mjd"], case["sod_us"])
-    (du, su), (dtt, stt), rec = oracle_times(case, kind)
+    if vals is None:
+        (du, su), (dtt, stt), rec = oracle_times(case, kind)
+    else:
+        (du, su), (dtt, stt), rec = times_from_values(case, vals)
     T = oe.centuries(dtt, stt)
     worst = 0.0
 
@@ -540,7 +553,7 @@ def reference_checks(case, kind):
         M = basis_map(inter, "ITRF", dt)
         gauge(float(np.linalg.norm(M[:3, 2] - axis)), 1e-10, "polar-motion",
               f"z axis of {inter} seen from ITRF {M[:3, 2].tolist()}, pole (x_p, -y_p, 1) = {axis.tolist()}")
-        if kind != "real":
+        if rec["x"] == 0 and rec["y"] == 0:
             gauge(float(np.abs(M[:3] - np.eye(3)).max()), 1e-9, "polar-motion", f"{inter}->ITRF without pole coordinates")
     return worst
 
@@ -651,6 +664,187 @@ def check_eopcfg(case):
     return dict(nt=True, cls=[mode, f"data:{'missing' if missing else 'present'}"], ratio=worst)
 
 
+# ----------------------------------------------------------------- facet: EOP switched inside one process
+
+_synth = {}  # values the synthetic database hands out right now
+
+
+def setup_switch(shard):
+    """Three databases side by side in ONE process: the real tables ('default'), zero corrections
+    with the tabulated leap seconds, and a synthetic one whose values every case sets anew.
+    'verif-none' is not registered: with policy 'pass' that is the 'missing' configuration.
+    (vf.env.eop is not used: it pins one configuration per process.)"""
+    from .. import env
+
+    env.bootstrap()
+    from beyond.config import config
+    from beyond.dates.eop import Eop, EopDb
+
+    tab = iers.tables(env.repo())
+    config.update({"eop": {"folder": os.path.join(env.repo(), "tests", "data", "pole"), "type": "all",
+                           "missing_policy": "pass"}})
+    env._eop_set = "switching"
+
+    class Zero:
+        def __getitem__(self, mjd):
+            return Eop(x=0, y=0, dx=0, dy=0, deps=0, dpsi=0, lod=0, ut1_utc=0, tai_utc=tab.tai_utc(mjd))
+
+    class Synthetic:
+        def __getitem__(self, mjd):
+            return Eop(**_synth)
+
+    EopDb.register(Zero, "verif-sw-zero")
+    EopDb.register(Synthetic, "verif-sw-synth")
+
+
+def use_config(step):
+    from beyond.config import config
+
+    kind = step["kind"]
+    if kind == "synth":
+        _synth.clear()
+        _synth.update(step["eop"])
+    config.set("eop", "dbname", {"real": "default", "zero": "verif-sw-zero", "synth": "verif-sw-synth",
+                                 "missing": "verif-none"}[kind])
+
+
+@st.composite
+def switch_case(draw, shard, tier):
+    d = D(draw)
+    band = shard % 4
+    lo = 41700 + band * 4025
+    steps = []
+    for _ in range(d.int(2, 4)):
+        kind = d.pick("real", "zero", "missing", "synth", "synth", "synth")
+        step = dict(kind=kind)
+        if kind == "synth":
+            step["eop"] = dict(x=d.u(-0.6, 0.6), y=d.u(-0.6, 0.6), dx=d.u(-1, 1), dy=d.u(-1, 1),
+                               dpsi=d.u(-100, 100), deps=d.u(-20, 20), lod=d.u(-4, 4),
+                               ut1_utc=d.u(-0.9, 0.9), tai_utc=float(d.int(10, 37)))
+        steps.append(step)
+    return dict(shard=shard, mjd=d.int(lo, lo + 4024), sod_us=d.int(300, 86100) * 10**6 + d.int(0, 999999),
+                steps=steps, state=_state(d))
+
+
+def check_switch(case):
+    """The same calendar date converted under a sequence of EOP configurations: every time the
+    Earth-fixed <-> inertial chain must be the one of the configuration in force."""
+    from beyond.orbits import StateVector
+
+    worst = 0.0
+    cls = []
+    x = case["state"]
+    prev = None
+    try:
+        for n, step in enumerate(case["steps"]):
+            use_config(step)
+            kind = step["kind"]
+            vals = step["eop"] if kind == "synth" else None
+            try:
+                worst = max(worst, reference_checks(case, kind, vals))
+            except Violation as v:
+                raise Violation(v.kind, f"configuration {n + 1} of {len(case['steps'])} ({kind}"
+                                        f"{', after ' + prev if prev else ''}): {v.msg}", **v.data) from None
+            # the composed chain under this configuration: direct = edge by edge, and there and back
+            dt = mkdate(case["mjd"], case["sod_us"])
+            sv = StateVector(list(x), dt, "cartesian", "ITRF")
+            direct = np.asarray(sv.copy(frame="EME2000").base, float)
+            hop = sv
+            for name in ("PEF", "TOD", "MOD", "EME2000"):
+                hop = hop.copy(frame=name)
+            back = np.asarray(StateVector(list(direct), dt, "cartesian", "EME2000").copy(frame="ITRF").base, float)
+            xs = np.array(x, float)
+            worst = max(worst, close(np.asarray(hop.base, float), direct, (xs, direct),
+                                     f"path: ITRF->PEF->TOD->MOD->EME2000 against ITRF->EME2000 under configuration {n + 1} ({kind})"))
+            worst = max(worst, close(back, xs, (xs, direct),
+                                     f"inverse: ITRF->EME2000->ITRF under configuration {n + 1} ({kind})"))
+            through = np.asarray(sv.copy(frame="GCRF").base, float)
+            via = np.asarray(sv.copy(frame="TIRF").copy(frame="CIRF").copy(frame="GCRF").base, float)
+            worst = max(worst, close(via, through, (xs, through),
+                                     f"path: ITRF->TIRF->CIRF->GCRF against ITRF->GCRF under configuration {n + 1} ({kind})"))
+            cls.append(f"{prev}->{kind}" if prev else f"first:{kind}")
+            prev = kind
+    finally:
+        use_config(dict(kind="missing"))
+    return dict(nt=len({s["kind"] for s in case["steps"]}) > 1 or any(s["kind"] == "synth" for s in case["steps"]),
+                cls=cls + [era_label(case["mjd"])], ratio=worst)
+
+
+# ----------------------------------------------------------------- facet: a frame name registered again
+
+_rereg = [0]
+
+
+@st.composite
+def rereg_case(draw, shard, tier):
+    d = D(draw)
+
+    def geo():
+        return [d.u(-89.0, 89.0), d.u(-180.0, 360.0), d.u(-300.0, 4000.0)]
+
+    def kep():
+        e = 0.5 * d.u() ** 2
+        return dict(a=6.8e6 * 6 ** d.u() / (1 - e), e=e, i=d.u(0.05, 3.0), raan=d.u(0, 6.28), argp=d.u(0, 6.28),
+                    nu=d.u(0, 6.28))
+
+    return dict(shard=shard, mjd=d.int(41800, 57700), sod_us=d.int(3000, 83000) * 10**6 + d.int(0, 999999),
+                stations=[geo(), geo()], orbits=[kep(), kep()], state=_state(d))
+
+
+def check_rereg(case):
+    """Creating a frame under a name that is already taken: the frame just created must stand
+    where *its* coordinates / orbit say, not where the previous holder of the name stood."""
+    from beyond.constants import Earth
+    from beyond.dates import Date
+    from beyond.frames import create_station, frames
+    from beyond.orbits import Orbit, StateVector
+    from beyond.propagators.kepler import Kepler
+
+    env_eop_once()
+    _rereg[0] += 1
+    dt = mkdate(case["mjd"], case["sod_us"])
+    x = np.array(case["state"], float)
+    worst = 0.0
+    name = f"R{case['shard']}x{_rereg[0]}S"
+    for n, (lat, lon, alt) in enumerate(case["stations"]):
+        fr = create_station(name, (lat, lon, alt))
+        site = oe.geodetic_to_ecef(math.radians(lat), math.radians(lon), alt, Earth.r, Earth.f)
+        east, north, up = oe.enu(math.radians(lat), math.radians(lon))
+        got = np.asarray(StateVector(list(x), dt, "cartesian", "ITRF").copy(frame=fr).base, float)
+        rel = x[:3] - site
+        want = np.array([rel @ north, -(rel @ east), rel @ up])
+        err = float(np.linalg.norm(got[:3] - want))
+        worst = max(worst, err / 1e-6)
+        if err > 1e-6:
+            raise Violation("reregistered-station",
+                            f"station '{name}' created {'again ' if n else ''}at ({lat}, {lon}, {alt}): an ITRF point "
+                            f"lands {err:.3g} m from where WGS-84 puts it")
+    name = f"R{case['shard']}x{_rereg[0]}O"
+    epoch = Date(case["mjd"], 43200.0)
+    for n, k in enumerate(case["orbits"]):
+        cart = np.array(tb.kep2cart(k["a"], k["e"], k["i"], k["raan"], k["argp"], k["nu"], MU_EARTH))
+        orb = Orbit(list(cart), epoch, "cartesian", "EME2000", Kepler())
+        fr = frames.orbit2frame(name, orb, exists_warning=False)
+        got = np.asarray(StateVector(list(x), epoch, "cartesian", "EME2000").copy(frame=fr).base, float)
+        want = x - cart  # at the epoch of the orbit itself the centre is the given state
+        err = float(np.linalg.norm(got[:3] - want[:3]))
+        errv = float(np.linalg.norm(got[3:] - want[3:]))
+        # the Kepler propagator re-derives the state through the mean anomaly (its Kepler-equation
+        # iteration stops at 1e-8 rad): millimetres; the two orbits differ by thousands of km
+        worst = max(worst, err / 0.05, errv / 5e-5)
+        if err > 0.05 or errv > 5e-5:
+            raise Violation("reregistered-orbit-frame",
+                            f"orbit frame '{name}' created {'again ' if n else ''}: a point lands {err:.3g} m, "
+                            f"{errv:.3g} m/s from (state - orbit state at epoch)")
+    return dict(nt=True, cls=[era_label(case["mjd"])], ratio=worst)
+
+
+def env_eop_once():
+    from .. import env
+
+    env.eop("zero")
+
+
 # ----------------------------------------------------------------- registration
 
 LEVEL_TEXT = ("Property-based search: every ordered pair (sampled triples) of built-in, topocentric, "
@@ -665,18 +859,23 @@ TECHNIQUE = "hypothesis strategies + enumeration of frame pairs/triples + indepe
 
 FACETS = [
     Facet("inverse", pair_case, check_inverse, setup=setup_world,
-          rule="every case: all ordered pairs A != B of 16 (20) frames", quick=(12, 3), thorough=(48, 10)),
+          rule="every case: all ordered pairs A != B of 16 (20) frames", quick=(12, 2), thorough=(48, 10)),
     Facet("path_independence", triple_case, check_path, setup=setup_world,
-          rule="every case: ~120 ordered triples", quick=(12, 5), thorough=(48, 24)),
+          rule="every case: ~120 ordered triples", quick=(12, 4), thorough=(48, 24)),
     Facet("rigid", rigid_case, check_rigid, setup=setup_world,
-          rule="every case: a quarter of the ordered pairs", quick=(12, 4), thorough=(48, 12)),
+          rule="every case: a quarter of the ordered pairs", quick=(12, 3), thorough=(48, 12)),
     Facet("kinematics", kin_case, check_kinematics, setup=setup_world,
           rule="every case: a third of the ordered pairs of 14 frames with a rate (+ body-centred pairs in JPL shards)",
-          quick=(12, 5), thorough=(48, 16)),
+          quick=(12, 4), thorough=(48, 16)),
     Facet("earth_rotation_reference", ref_case, check_reference, setup=setup_ref,
           rule="every case", quick=(12, 40), thorough=(24, 400)),
     Facet("chains_agree", lambda s, t: ref_case(s, t, chains=True), check_chains, setup=setup_ref,
           rule="every case", quick=(6, 40), thorough=(12, 300)),
     Facet("eop_configurations", eopcfg_case, check_eopcfg, setup=setup_eopcfg,
           rule="every case", quick=(8, 30), thorough=(16, 300)),
+    Facet("eop_switch", switch_case, check_switch, setup=setup_switch,
+          rule="at least two different configurations (or a synthetic one) on the same calendar date, one process",
+          quick=(8, 30), thorough=(16, 500)),
+    Facet("reregister", rereg_case, check_rereg,
+          rule="every case: a station name and an orbit-frame name each used twice", quick=(6, 7), thorough=(48, 7)),
 ]
